@@ -130,7 +130,9 @@ def norm_model(o):
 def compare_filter(line):
     # the extracted model is quadratic in the stream length: compare it on streams up to ~6 KB,
     # the oracle below still judges the implementation on the long ones
-    return line.split()[1] == "dec" and len(line) < 3000 and "r1000" not in line and "r2000" not in line and "r3000" not in line
+    import re
+    big = any(int(n) >= 50000 for n in re.findall(r"r(\d+)\.", line))
+    return line.split()[1] == "dec" and len(line) < 3000 and not big and "r1000" not in line and "r2000" not in line and "r3000" not in line
 
 
 def judge(line, impl_obs, orc):
